@@ -35,9 +35,12 @@ end
 
 structure VResult where
   tree : List DNode
-  evs : List Ev
-  errs : List VErr
+  /-- change events and errors in the order they happened -/
+  log : List Item
   deriving Repr, Inhabited
+
+def VResult.evs (r : VResult) : List Ev := r.log.filterMap fun | .ev e => some e | .err _ => none
+def VResult.errs (r : VResult) : List VErr := r.log.filterMap fun | .err e => some e | .ev _ => none
 
 /-- fuel of the subtree walk: the walk goes one level down per step and the implicit non-presence containers it creates
 are at most as deep as the schema -/
@@ -46,7 +49,7 @@ def walkFuel (X : SchemaX) (t : List DNode) : Nat := 2 * (heightL t + X.base.nod
 /-- `lyd_validate_module(&tree, mod, opts, &diff)` / `lyd_validate_all(&tree, ctx, opts | LYD_VALIDATE_PRESENT, &diff)` for
 the data of the one module -/
 def validate (X : SchemaX) (o : VOpts) (t : List DNode) : VResult :=
-  if o.present && t.isEmpty then { tree := [], evs := [], errs := [] }
+  if o.present && t.isEmpty then { tree := [], log := [] }
   else
     let cx : Cx := {}
     let r1 := validateNew X o cx t
@@ -54,7 +57,7 @@ def validate (X : SchemaX) (o : VOpts) (t : List DNode) : VResult :=
     let r3 := subtreeKids X o (walkFuel X t) cx [] r2.1
     let r4 := finalR X o cx r3.1
     let out := r1.2 ++ r2.2 ++ r3.2 ++ r4.2
-    { tree := r4.1, evs := out.evs, errs := out.errs }
+    { tree := r4.1, log := out.items }
 
 /-- the verdict without `LYD_VALIDATE_MULTI_ERROR`: the first error -/
 def VResult.first (r : VResult) : Option VErr := r.errs.head?
